@@ -6,6 +6,6 @@ TESTS = [
 ]
 ASSUMPTIONS = [
     "NFSv4.0: byte equality is asserted for the result of the seqid-bearing operation (and the operations before it); two OPENs under one seqid with different arguments are the same request (RFC 7530 9.1.9) and get the cached reply. The operation that follows a replayed successful OPEN in the generated COMPOUND (GETFH) must also return what it returned the first time, i.e. the replay re-establishes the opened file as current file handle (the reply the client gets for its retransmitted PUTFH; OPEN; GETFH must be the reply it was given the first time; Linux nfsd keeps the file handle in its replay cache for the same reason); the pinned tree returned the directory's handle (finding C19/nfs40-replayed-open-loses-current-filehandle, fixed)",
-    "NFSv4.0: any number of identical retransmissions may wait behind an in-progress transaction of an open-owner (each must return with the original's reply); a waiter whose content differs from the others (other operation, other state ID) is not generated together with them, because which waiter the server serves first is up to the Go scheduler (counted as excluded_second_waiter_with_other_content)",
+    "NFSv4.0: any number of identical retransmissions may wait behind an in-progress transaction of an open-owner and wake up on their own (each must return with the original's reply, whatever order the Go scheduler serves them in); a waiter whose content differs from those (other operation, other state ID, the owner's next request) is held by the harness's clock at the clock reading of enter() when it wakes up and let go by a generated 'release' step (label waiter_with_other_content_held_at_reentry), so that the order of service is the harness's; identical retransmissions are held that way too with a drawn probability, and clock steps, RENEWs and other requests are generated while they are held (see the reentry window assumptions of C18)",
     "NFSv4.0: the client chooses the seqid of the first request of a new open-owner or lock-owner (RFC 7530 9.1.7); the simulators start from 0, 1 or 2^32-4..2^32-1. The successor of 2^32-1 is 1: nextSeqID in nfs40_program.go documents that owner seqids follow the state ID rule of RFC 7530 9.1.3 (zero is skipped), and the model follows the code's documentation; a first seqid of 0 is accepted like any other",
 ]
